@@ -62,6 +62,18 @@ func interfererPool(all bool) []Script {
 	return out
 }
 
+// tripleObservers are the observers of the triple families; idx maps them to
+// their position in Observers.
+func tripleObservers() (out []Script, idx []int) {
+	for i, s := range Observers {
+		if s.Triple {
+			out = append(out, s)
+			idx = append(idx, i)
+		}
+	}
+	return
+}
+
 func coreInterferers() []Script {
 	var out []Script
 	for _, s := range Interferers {
@@ -125,11 +137,14 @@ func resolve(fam string, idx uint64) (*caseDef, error) {
 	case famTripBlock, famTripStmt:
 		ints := orderedInterferers()
 		prs := tripleInterferers(fam)
-		if idx >= uint64(len(prs))*nObs {
+		tobs, tidx := tripleObservers()
+		nT := uint64(len(tobs))
+		if idx >= uint64(len(prs))*nT {
 			return nil, fmt.Errorf("index out of range")
 		}
-		pr := prs[idx/nObs]
-		x, y, b := ints[pr[0]], ints[pr[1]], Observers[idx%nObs]
+		pr := prs[idx/nT]
+		x, y, b := ints[pr[0]], ints[pr[1]], tobs[idx%nT]
+		bi := uint64(tidx[idx%nT]) // position in Observers, for the pair family
 		cd := &caseDef{Key: fmt.Sprintf("interferers=%s+%s observer=%s clause=interference", x.Name, y.Name, b.Name)}
 		if fam == famTripBlock {
 			cd.Actors = []*actor{
@@ -145,7 +160,7 @@ func resolve(fam string, idx uint64) (*caseDef, error) {
 			}
 		}
 		// positions of x and y in the pair family's pool (same order)
-		cd.Pairs = []uint64{uint64(pr[0])*nObs + idx%nObs, uint64(pr[1])*nObs + idx%nObs}
+		cd.Pairs = []uint64{uint64(pr[0])*nObs + bi, uint64(pr[1])*nObs + bi}
 		return cd, nil
 	}
 	return nil, fmt.Errorf("unknown family %q", fam)
@@ -292,8 +307,9 @@ func Families(tier string) []*core.Family {
 	}
 	fams := []*core.Family{mk(famSelf, nObs), pairs}
 	if tier == "thorough" {
-		tb := mk(famTripBlock, uint64(len(tripleInterferers(famTripBlock)))*nObs)
-		ts := mk(famTripStmt, uint64(len(tripleInterferers(famTripStmt)))*nObs)
+		tobs, _ := tripleObservers()
+		tb := mk(famTripBlock, uint64(len(tripleInterferers(famTripBlock))*len(tobs)))
+		ts := mk(famTripStmt, uint64(len(tripleInterferers(famTripStmt))*len(tobs)))
 		// never fail on time: a loaded machine makes the run non exhaustive
 		tb.BudgetSeconds, ts.BudgetSeconds = scaled(BudgetTripBlock), scaled(BudgetTripStmt)
 		fams = append(fams, tb, ts)
